@@ -326,7 +326,8 @@ def _value_tests(body):
         if origs and all(x.kind == "discr" for x in origs) and len(origs) == 1:
             st = body.blocks[next(iter(origs)).site[0]]["s"][next(iter(origs)).site[1]]
             r = st["r"]
-            if len(r.get("p", [])) == 1:
+            is_upvar = body.is_closure_like and len(r.get("p", [])) >= 2 and r["p"][0] == 1 and [e for e in r["p"][1:] if e != "*"][:1] and len([e for e in r["p"][1:] if e != "*"]) == 1
+            if len(r.get("p", [])) == 1 or is_upvar:
                 tested = r["p"]
                 variants = r.get("variants", {})
                 table = {val: {variants.get(val)} for (val, _b) in t["targets"] if variants.get(val)}
@@ -361,6 +362,12 @@ def _value_tests(body):
         if tested is None or not table:
             continue
         defs = body.origins(tested, through_calls=False)
+        if body.is_closure_like and len(defs) == 1 and next(iter(defs)).kind == "upvar" and not next(iter(defs)).proj:
+            # a captured enum / bool that is only read: its value is fixed per instance of this closure / coroutine;
+            # a check may bind it (check(..., init_corr={id: variant})) to follow one instance at a time
+            vid = "%s#upvar%d" % (body.name, next(iter(defs)).site)
+            vtsts[bi] = {val: "vtst:%s|{%s}" % (vid, ",".join(sorted(x for x in vs if x))) for val, vs in table.items()}
+            continue
         sites = {}
         ok = len(defs) >= 2
         for d in defs:
@@ -736,10 +743,12 @@ class _Correlated(Spec):
         return self.inner.at_end(st[0], node)
 
 
-def check(nfa: NFA, spec: Spec, max_viol=3):
+def check(nfa: NFA, spec: Spec, max_viol=3, init_corr=None):
     """BFS over the product. Returns (violations, product_states). Each violation: dict(msg, trace)."""
-    if getattr(nfa, "has_corr", False):
+    if getattr(nfa, "has_corr", False) or init_corr:
         spec = _Correlated(spec)
+        if init_corr:
+            spec.init = (spec.init[0], tuple(sorted(init_corr.items())))
     start = (nfa.entry, spec.init)
     pred = {start: None}
     dq = deque([start])
